@@ -100,21 +100,21 @@ Proof.
   - left. eauto.
 Qed.
 
-Lemma nfields_header h : nfields h = N.of_nat (List.length (split_string TAB h)).
-Proof. reflexivity. Qed.
+Lemma nfields_header h : N.of_nat (List.length (tsv_header h)) = nfields h.
+Proof. unfold tsv_header, nfields. now rewrite map_length. Qed.
 
 Lemma read_tsv_err_malformed s a b l : read_tsv s = ErrMismatch a b l -> tsv_malformed s.
 Proof.
   unfold read_tsv, tsv_malformed. destruct (split_lines s) as [|h t]; [discriminate|]. intros H.
   apply tsv_data_err in H. destruct H as (Ha & pre & bad & post & Els & _ & Hb & Hne & _). subst t.
-  exists bad. split; [apply in_or_app; right; now left|]. intros Heq. apply Hne. rewrite <- Hb, Ha. exact Heq.
+  exists bad. split; [apply in_or_app; right; now left|]. intros Heq. apply Hne. rewrite <- Hb, Ha, (nfields_header h). exact Heq.
 Qed.
 
 Lemma read_tsv_malformed_err s :
   tsv_malformed s -> (exists a b l, read_tsv s = ErrMismatch a b l) \/ read_tsv s = OutOfFuel.
 Proof.
   unfold read_tsv, tsv_malformed. destruct (split_lines s) as [|h t]; [contradiction|]. intros (l & Hin & Hne).
-  apply tsv_data_malformed. exists l. split; [exact Hin|]. exact Hne.
+  apply tsv_data_malformed. exists l. split; [exact Hin|]. now rewrite (nfields_header h).
 Qed.
 
 Lemma read_tsv_ok s rs :
@@ -123,7 +123,7 @@ Proof.
   unfold read_tsv, tsv_malformed. destruct (split_lines s) as [|h t]; intros H.
   - inversion H. split; [tauto|reflexivity].
   - apply tsv_data_ok in H. destruct H as [Hall Hlen]. split; [|exact Hlen].
-    intros (l & Hin & Hne). rewrite Forall_forall in Hall. apply Hne. exact (Hall l Hin).
+    intros (l & Hin & Hne). rewrite Forall_forall in Hall. apply Hne. rewrite <- (nfields_header h). exact (Hall l Hin).
 Qed.
 
 (* the reported position: header size, offending size, 1-based line number of the FIRST offending line *)
@@ -135,5 +135,5 @@ Lemma read_tsv_err_position s a b l :
 Proof.
   unfold read_tsv. destruct (split_lines s) as [|h t]; [discriminate|]. intros H.
   apply tsv_data_err in H. destruct H as (Ha & pre & bad & post & Els & Hpre & Hb & Hne & Hl). subst t.
-  exists h, pre, bad, post. repeat split; auto.
+  rewrite (nfields_header h) in Ha. exists h, pre, bad, post. repeat split; auto.
 Qed.
